@@ -42,6 +42,12 @@ CHECKS = {
         design="3/C11",
         technique="Lean 4 proof (induction over gate lists, structural decomposition invariant) + exhaustive/random model-code correspondence + independent oracle on the real code",
     ),
+    "C14": dict(
+        text="Lean 4 theorems over all circuits, qubit lists, n and list lengths, for every monoid-valued gate semantics: act(append_circuit) = act(self) * act(other relabelled through the qubit list); += and + are sequential composition; repeat(n) = act^n (all n for the repaired model, n>=1 for the code as it is, Lean witness for n=0); copy/+/repeat results are equal resp. composed circuits that share no mutable heap object (gate list, gates_computed list, qubit_map, wire lists) with their operands, so no heap write through the result is visible in an operand (frame theorem on the modelled heap); remove_identities returns and preserves the action when the cancelled classes square to 1 and barriers are 1 (repaired model; the code as it is on every gate list that avoids the two listed defects, Lean witnesses for both); iqft after qft acts as 1 on every duplicate-free qubit list of any length, from H^2=1, SWAP^2=1, CP(t)CP(-t)=1 and commutation of gates on disjoint wires. Model tied to the code by exact comparison of result circuits, error classes and Python object-identity patterns on a systematic slice (every gate kind x every operator x position) plus random cases; the property is judged on the real code by an own state-vector simulator and heap snapshots before/after the call and after mutating the result.",
+        note="Trusted: Lean kernel (axioms propext, Classical.choice, Quot.sound only, audited per run), the correspondence harness and its simulator (harness/circ.py). The theorems are about QV/Model/CircuitOps.lean: gate semantics enters only through the stated algebraic laws; copy.deepcopy is modelled as an identity-pattern-preserving fresh copy; gate descriptor objects and parameters are treated as immutable; that an in-place operator leaves its other operand alone is checked on the code, not proved; negative repeat counts / negative indices, QCircuit.__native and the ancilla sets of QCircuitEnhanced are outside the model. Open findings: repeat(0), remove_identities IndexError on an empty result, remove_identities cancelling S/T/P/CP pairs.",
+        design="3/C14",
+        technique="Lean 4 proof (list induction, loop invariant, monoid algebra) + exact model/code correspondence incl. object identities + numeric unitary oracle",
+    ),
 }
 
 NOT_YET = {
